@@ -523,8 +523,19 @@ def enum_wf_every_kind(tier):
                "y_index": ["default", "offset", "shuffled"][(k + int(prefit) + int(dup)) % 3]}
 
 
+def enum_tde(tier):
+    """The temporal dictionary ensemble with more candidate parameter sets than places in the
+    ensemble (members get replaced during fit), equal-width binning only (see panelpool)."""
+    for seed in ((1, 2, 3) if tier == "quick" else range(1, 13)):
+        for k, lk in ((2, "str"), (3, "int_gap")):
+            yield {"spec": {"kind": "tde", "random_state": seed, "n_parameter_samples": 12, "max_ensemble_size": 3}, "n_classes": k,
+                   "n_train": 12, "t": 32, "seed": 500 + seed, "separable": seed % 2 == 0, "prefit": False, "dup": False, "label_kind": lk,
+                   "unbalanced": False, "y_as_series": False, "container": "numpy3d", "n_new": 6, "y_index": "default"}
+
+
 def subchecks():
     return [
+        SubCheck("temporal_dictionary_ensemble", oracle_wellformed, enumerate_cases=enum_tde, shards_quick=6, shards_thorough=12, exhaustive=True),
         SubCheck("well_formed_every_kind", oracle_wellformed, enumerate_cases=enum_wf_every_kind, shards_quick=16, shards_thorough=16, exhaustive=True),
         SubCheck("well_formed", oracle_wellformed, wf_cases(), quick=360, thorough=5000, shards_quick=12, shards_thorough=16),
         SubCheck("stsf_unbalanced", oracle_stsf_unbalanced, stsf_cases(), quick=40, thorough=400, shards_quick=8, shards_thorough=16),
